@@ -333,3 +333,139 @@ Example c09_source_pad_nonvacuous :
 Proof.
   split; [|vm_compute; auto]. repeat constructor.
 Qed.
+
+(* ================================================================================================== *)
+(* SECOND SOURCE TIE (TENSOR code): the Python text of `pad_masked_sequence` (src/pydrobert/torch/_pad.py), *)
+(* translated by harness/py2coq to the MiniPy term PV.Gen.C09BSrc.masked_body (regenerated from the working  *)
+(* tree on every run) and interpreted by PV.MiniPy.Interp with every torch call given the meaning defined in *)
+(* PV.MiniTorch.OpsC09 / OpsC09B (SrcRunB.ext09b), computes Model.pad_masked_sequence - for ALL inputs:       *)
+(*   x = rows of cells of F >= 1 payload values (arbitrary MiniPy values: the code only moves them), any     *)
+(*   boolean mask of matching shape, either setting of batch_first, any fill value.                          *)
+(* `chunk_by_slices` (C09BSrc.chunk_body) is translated whole and EXECUTED against torch on the cases of     *)
+(* every run (SrcRunB.src_chunk_check) but its tie lemma is NOT proved (notes/C09_tie_report.md, "Second tie"). *)
+(* Trusted: translator, Interp (its ENeg clause now asks ext "$neg" for a non-number), OpsC09, OpsC09B,      *)
+(* ext09b, the encodings of SrcRunB.v (eager semantics; TorchScript, dtypes, devices, strides not modelled) - *)
+(* exercised against torch on every run (source_tieB in harness/props/c09_tie.py).                           *)
+(* ================================================================================================== *)
+From PV Require MiniTorch.OpsC09B Gen.C09BSrc C09.SrcRunB C09.TieBModel C09.TieB.
+
+(* batch_first = True: x is N rows of T cells, mask N rows of T booleans.  The interpreted source returns the pair
+   (the (N, T, F) tensor of the model's rows - every cell -, the integer vector of the model's counts); it raises
+   RuntimeError exactly if the model's one flat masked_scatter would (it never does: c09_source_masked_rows_bf) *)
+Theorem c09_source_masked_is_model_bf : forall (N T F : nat) (value : Syntax.val)
+    (x : list (list (list Syntax.val))) (mask : list (list bool)) (d : list Syntax.val),
+  0 < F -> Tie.wf_x T F x -> TieB.wf_mask T mask -> length mask = length x ->
+  exists st,
+    Interp.run SrcRunB.ext09b C09BSrc.masked_body
+      (SrcRunB.masked_vars (OpsC09.enc_p (SrcRun.x_tensor T F x)) (OpsC09.enc_b (SrcRunB.mask_tensor T mask)) true value)
+    = match pad_masked_sequence N T d (repeat value F) true x mask with
+      | Ok (out, lens) =>
+          Interp.Ok (Syntax.VTuple [OpsC09.enc_p (SrcRun.rows_tensor T F out); OpsC09.enc_i (SrcRun.vec_tensor lens)]) st
+      | e => Interp.Exc (Tie.exc_of e) st
+      end.
+Proof. exact TieB.masked_tie_bf_explicit. Qed.
+Print Assumptions c09_source_masked_is_model_bf.
+
+(* batch_first = False: x is T rows of N cells (the (T, N, F) tensor), mask T rows of N booleans; the source transposes
+   both, compacts, and transposes the result back - exactly the model's three steps *)
+Theorem c09_source_masked_is_model_nbf : forall (N T F : nat) (value : Syntax.val)
+    (x : list (list (list Syntax.val))) (mask : list (list bool)) (d : list Syntax.val),
+  0 < F -> Tie.wf_x N F x -> TieB.wf_mask N mask -> length x = T -> length mask = T ->
+  exists st,
+    Interp.run SrcRunB.ext09b C09BSrc.masked_body
+      (SrcRunB.masked_vars (OpsC09.enc_p (SrcRun.x_tensor N F x)) (OpsC09.enc_b (SrcRunB.mask_tensor N mask)) false value)
+    = match pad_masked_sequence N T d (repeat value F) false x mask with
+      | Ok (out, lens) =>
+          Interp.Ok (Syntax.VTuple [OpsC09.enc_p (SrcRun.rows_tensor N F out); OpsC09.enc_i (SrcRun.vec_tensor lens)]) st
+      | e => Interp.Exc (Tie.exc_of e) st
+      end.
+Proof. exact TieB.masked_tie_nbf_explicit. Qed.
+Print Assumptions c09_source_masked_is_model_nbf.
+
+(* composed with c09_pad_masked_sequence_correct - statements purely about the interpreted source: it never raises and
+   row n of the returned tensor is the cells of x[n] that mask[n] selects, in order, followed by the fill cell up to T;
+   the second component is the vector of the counts (Spec.compact1) *)
+Theorem c09_source_masked_rows_bf : forall (T F : nat) (value : Syntax.val)
+    (x : list (list (list Syntax.val))) (mask : list (list bool)),
+  0 < F -> Tie.wf_x T F x -> TieB.wf_mask T mask -> length mask = length x ->
+  exists out lens st,
+    Interp.run SrcRunB.ext09b C09BSrc.masked_body
+      (SrcRunB.masked_vars (OpsC09.enc_p (SrcRun.x_tensor T F x)) (OpsC09.enc_b (SrcRunB.mask_tensor T mask)) true value)
+    = Interp.Ok (Syntax.VTuple [OpsC09.enc_p (SrcRun.rows_tensor T F out); OpsC09.enc_i (SrcRun.vec_tensor lens)]) st
+    /\ length out = length x /\ length lens = length x
+    /\ forall n, n < length x ->
+         (nth n out [], nth n lens 0) = compact1 (repeat value F) (nth n x []) (nth n mask []).
+Proof. exact TieB.source_masked_rows_bf. Qed.
+Print Assumptions c09_source_masked_rows_bf.
+
+(* the same for batch_first = False: the returned (T, N, F) tensor is the transpose of the (N, T) view o whose row n is
+   the compaction of column n of x by column n of mask *)
+Theorem c09_source_masked_rows_nbf : forall (N T F : nat) (value : Syntax.val)
+    (x : list (list (list Syntax.val))) (mask : list (list bool)),
+  0 < F -> Tie.wf_x N F x -> TieB.wf_mask N mask -> length x = T -> length mask = T ->
+  exists o lens st,
+    Interp.run SrcRunB.ext09b C09BSrc.masked_body
+      (SrcRunB.masked_vars (OpsC09.enc_p (SrcRun.x_tensor N F x)) (OpsC09.enc_b (SrcRunB.mask_tensor N mask)) false value)
+    = Interp.Ok (Syntax.VTuple [OpsC09.enc_p (SrcRun.rows_tensor N F (transpose T [] o)); OpsC09.enc_i (SrcRun.vec_tensor lens)]) st
+    /\ length o = N /\ length lens = N
+    /\ forall n, n < N ->
+         (nth n o [], nth n lens 0)
+         = compact1 (repeat value F) (nth n (transpose N [] x) []) (nth n (transpose N false mask) []).
+Proof. exact TieB.source_masked_rows_nbf. Qed.
+Print Assumptions c09_source_masked_rows_nbf.
+
+(* the executable form the harness evaluates on the masked cases of every run (batch-first layout): reading back what the
+   interpreted source returns gives the model's result *)
+Theorem c09_source_masked_refines_model : forall (N T F : nat) (value : Syntax.val)
+    (x : list (list (list Syntax.val))) (mask : list (list bool)) (d : list Syntax.val),
+  0 < F -> Tie.wf_x T F x -> TieB.wf_mask T mask -> length mask = length x ->
+  SrcRunB.src_masked T F value true x mask
+  = Some (match pad_masked_sequence N T d (repeat value F) true x mask with
+          | Ok (out, lens) => Ok (out, map Z.of_nat lens)
+          | ErrValue => ErrValue | ErrRuntime => ErrRuntime | ErrNotImpl => ErrNotImpl
+          end).
+Proof. exact TieB.src_masked_tie_bf. Qed.
+Print Assumptions c09_source_masked_refines_model.
+
+(* non-vacuity: the interpreted sources on concrete batches (F = 1): pad_masked_sequence in both layouts, and
+   chunk_by_slices (executed only, see above) on the reflect batch of c09_chunk_nonvacuous and on an empty batch *)
+Example c09_source_b_nonvacuous :
+  Tie.wf_x 3 1 (SrcRun.zcells [[[1]; [2]; [3]]; [[4]; [5]; [6]]]%Z) /\ TieB.wf_mask 3 [[true; false; true]; [false; false; true]] /\
+  SrcRunB.src_masked_check 2 3 1 9 true [[[1]; [2]; [3]]; [[4]; [5]; [6]]]%Z [[true; false; true]; [false; false; true]] 0
+    (Some ([[[1]; [3]; [9]]; [[6]; [9]; [9]]]%Z, [2; 1])) = true /\
+  SrcRunB.src_masked_check 2 3 1 9 false [[[1]; [4]]; [[2]; [5]]; [[3]; [6]]]%Z [[true; false]; [false; false]; [true; true]] 0
+    (Some ([[[1]; [6]]; [[3]; [9]]; [[9]; [9]]]%Z, [2; 1])) = true /\
+  SrcRunB.src_chunk_check 4 1 9 Reflect [[[1]; [2]; [3]; [4]]; [[5]; [6]; [7]; [8]]]%Z [(5, 7)%Z; (-2, 3)%Z] (Some [4; 3]) 0
+    (Some ([[[2]; [1]; [1]; [9]; [9]]; [[7]; [6]; [5]; [6]; [7]]]%Z, [2; 5])) = true /\
+  SrcRunB.src_chunk_check 4 1 9 Replicate [] [] None 0 (Some ([], [])) = true.
+Proof.
+  split; [repeat constructor|]. split; [repeat constructor|]. vm_compute. auto.
+Qed.
+
+(* chunk_by_slices (C09BSrc.chunk_body, translated whole): its two EARLY EXITS, for all inputs, as the model has them.
+   The main path (padding buffers, masks, the masked scatters, the reflect special case) is executed against torch on
+   every run but is NOT proved. *)
+(* the empty batch: the (0, T, F) tensor and the empty length vector, whatever slices, lens, mode and value are *)
+Theorem c09_source_chunk_empty_batch : forall (T F : nat) (value : Syntax.val) (md : mode) (slices : list (Z * Z))
+    (lens : option (list nat)) (d fill : list Syntax.val),
+  exists st,
+    Interp.run SrcRunB.ext09b C09BSrc.chunk_body
+      (SrcRunB.chunk_vars (OpsC09.enc_p (SrcRun.x_tensor T F [])) (OpsC09.enc_i (SrcRunB.slices_tensor slices))
+         (SrcRunB.lens_val lens) (SrcRun.mode_val md) value)
+    = Interp.Ok (Syntax.VTuple [OpsC09.enc_p (SrcRun.rows_tensor T F []); OpsC09.enc_i (SrcRun.vec_tensor [])]) st
+    /\ chunk_by_slices T d fill md [] slices lens = Ok ([], []).
+Proof. exact TieB.chunk_tie_empty. Qed.
+Print Assumptions c09_source_chunk_empty_batch.
+
+(* a non-empty batch with a lens vector whose length is not N: RuntimeError, where the model reports ErrRuntime *)
+Theorem c09_source_chunk_bad_lens_raises : forall (T F : nat) (value : Syntax.val) (md : mode)
+    (x : list (list (list Syntax.val))) (slices : list (Z * Z)) (l : list nat) (d fill : list Syntax.val),
+  Tie.wf_x T F x -> x <> [] -> length l <> length x ->
+  exists st,
+    Interp.run SrcRunB.ext09b C09BSrc.chunk_body
+      (SrcRunB.chunk_vars (OpsC09.enc_p (SrcRun.x_tensor T F x)) (OpsC09.enc_i (SrcRunB.slices_tensor slices))
+         (SrcRunB.lens_val (Some l)) (SrcRun.mode_val md) value)
+    = Interp.Exc SrcRun.runtime_error st
+    /\ chunk_by_slices T d fill md x slices (Some l) = ErrRuntime.
+Proof. exact TieB.chunk_tie_bad_lens. Qed.
+Print Assumptions c09_source_chunk_bad_lens_raises.
